@@ -50,7 +50,7 @@ def streams(tier, rng, P, only=None, cases=None):
         cs = []; seen = set()
         def add(src, key):
             if src in seen: return
-            if src.count("WHILE(1){") + src.count("FOR(;;)") > 1: return
+            if src.count("WHILE(") + src.count("FOR(") > 1: return      # nested loops that each run into the 10000-pass limit: 10^8 passes are work the program asks for
             if "TR=Random(" in src or "TR(Random(" in src or "TRRandom(" in src: return   # a random track number up to 2^31 is work the program asks for     # nested endless loops: 10^8 iterations are work the program asks for
             seen.add(src); cs.append(dict(req="compile %s 0 en lib" % hx(src), src=src, show=repr(src)[:200], key=key))
         for a in fr: add(a, "1")
@@ -138,10 +138,10 @@ def streams(tier, rng, P, only=None, cases=None):
         nums = [a for a in fr if any(ch.isdigit() for ch in a)]
         for a in nums:
             for b in nums:
-                if (a + b).count("WHILE(1){") + (a + b).count("FOR(;;)") <= 1: add(a + b, "2")
+                if (a + b).count("WHILE(") + (a + b).count("FOR(") <= 1: add(a + b, "2")
         for _ in range(20000 if big else 1500):
             src = rng.choice(["", " "]).join(rng.choice(fr) for _ in range(rng.randrange(2, 6)))
-            if src.count("WHILE(1){") + src.count("FOR(;;)") > 1 or "Random(" in src and "TR" in src: continue
+            if src.count("WHILE(") + src.count("FOR(") > 1 or "Random(" in src and "TR" in src: continue
             add(re.sub(r"\d{5,}", lambda m: m.group(0)[:3], src), "k")
         for j, s_ in enumerate(mml.sample_sources()): add(s_, "sample%d" % j)
         return cs
